@@ -156,18 +156,18 @@ def engine_r_t(kw, n_inputs, chunks):
     os.makedirs(d)
     t0 = time.time()
     so = build_real_dylib(kw["repo"], os.path.join(out, "r-target-stable"))
-    per = max(1, n_inputs // chunks)
-    files = []
-    for c in range(chunks):
-        f = os.path.join(d, f"t{c}.rs")
-        cmd = [exe, "emit-crate", "--repo", kw["repo"], "--root", str(seed), "--from", str(c * per),
-               "--n", str(per), "--out", f, "--no-user-compile-error"]
-        if c == 0:
-            cmd.append("--with-pool")
+    files = [os.path.join(d, f"t{c}.rs") for c in range(chunks)]
+
+    def emit(c):
+        cmd = [exe, "emit-crate", "--repo", kw["repo"], "--root", str(seed), "--from", "0",
+               "--n", str(n_inputs), "--out", files[c], "--no-user-compile-error", "--with-pool",
+               "--no-native", "--shard", f"{c}/{chunks}"]
         r = subprocess.run(cmd, env={"PATH": "/usr/bin:/bin"}, capture_output=True, text=True)
         if r.returncode != 0:
             raise HarnessError(f"emit-crate failed: {r.stderr[-2000:]}")
-        files.append(f)
+
+    with concurrent.futures.ThreadPoolExecutor(max_workers=kw["jobs"]) as ex:
+        list(ex.map(emit, range(chunks)))
     classes = []
     modules = 0
     with concurrent.futures.ThreadPoolExecutor(max_workers=kw["jobs"]) as ex:
@@ -372,8 +372,15 @@ def run_extra(**kw):
             res["engines"]["self_proof"] = info
             res["classes"] += classes
             res["evaluations"] += ev
-            res["engines"]["M"] = {"ran": False, "why": "thorough tier only (Miri costs ~7 s CPU per expansion)"}
-            res["engines"]["R"] = {"ran": False, "why": "thorough tier only"}
+            info, classes, ev = engine_r_t(kw, n_inputs=0, chunks=max(16, kw["jobs"]))
+            res["engines"]["R-T"] = dict(info, what="corpus and directed seeds only (generated inputs in the thorough tier): "
+                                                    "shipped dylib (guard off), real proc_macro bridge, real wrappers, stable "
+                                                    "rustc --emit=metadata; verdict only on macro panics and message-less "
+                                                    "compile_error!; nothing stubbed")
+            res["classes"] += classes
+            res["evaluations"] += ev
+            res["engines"]["M"] = {"ran": False, "why": "thorough tier only (Miri costs ~10 s CPU per expansion)"}
+            res["engines"]["R-D"] = {"ran": False, "why": "thorough tier only"}
         else:
             info, classes, ev = self_proof(kw, sessions=256, job_counts=[kw["jobs"], 4, 1])
             res["engines"]["self_proof"] = info
